@@ -137,7 +137,34 @@ def seed_requests(rng):
     return fr
 
 
+def established_flow_scripts(rng):
+    """Reply-typed messages arriving as LATER segments of a flow that a valid request has already pinned to a
+    protocol (the per-flow parser then has state: a reply must not be read as a fresh request)."""
+    out = []
+    rpc_replies = []
+    for xid in (0x12345678, 0x00112233):
+        for results in (b"", b"\0" * 16, b"\0\0\0\x6f" + b"\0" * 28):
+            body = struct.pack("!IIIIII", xid, 1, 0, 0, 0, 0) + results
+            body = body + b"\0" * max(0, 44 - len(body))      # long enough to parse to the end of a call layout
+            rpc_replies.append(struct.pack("!I", 0x80000000 | len(body)) + body)
+    call = gens.rpc_call(xid=0x81020304, vers=2, proc=0, tcp=True)
+    http_resp = b"HTTP/1.1 401 Unauthorized\nServer: x\n\n<html></html>\n"
+    import props.c01 as c01
+    s1 = bytearray(c01.SMB1_NEG); s1[13] |= 0x80
+    for v6 in (False, True):
+        s, d = gens.addr_pair(v6)
+        for i, rep in enumerate(rpc_replies):
+            out.append(Script(CFG, gens.handshake(CFG.key, s, d, 41000 + i, 111, [call, rep, rep]), "established:rpc"))
+            out.append(Script(CFG, gens.handshake(CFG.key, s, d, 41100 + i, 111, [call + rep]), "established:rpc-same-segment"))
+        out.append(Script(CFG, gens.handshake(CFG.key, s, d, 41200, 80, [gens.http_req(), http_resp, http_resp]), "established:http"))
+        out.append(Script(CFG, gens.handshake(CFG.key, s, d, 41300, 3478, [gens.stun_req(), gens.stun_req(mtype=0x0101), gens.stun_req(mtype=0x0111)]), "established:stun"))
+        out.append(Script(CFG, gens.handshake(CFG.key, s, d, 41400, 445, [c01.SMB1_NEG, bytes(s1)]), "established:smb"))
+    return out
+
+
 def generate(tier, rng):
+    for sc in established_flow_scripts(rng):
+        yield sc
     yield Script(CFG, reply_typed_frames(rng, tier), "reply-typed")
     yield Script(CFG, seed_requests(rng), "seed-requests (their replies are bounced)")
 
